@@ -175,6 +175,15 @@ func c19Build(r *sim.Run) (*mp4.InitSegment, []c19Track, error) {
 				r.Probe("avc-profile-other-than-100")
 			}
 		}
+		if tr.desc == "hvc1" || tr.desc == "hev1" {
+			tr.sps, tr.w, tr.h = c19HevcSPS, 960, 540
+			if t.Chance(400) {
+				var d string
+				tr.sps, tr.w, tr.h, d = work.DrawHEVCSPS(t)
+				r.Logf("HEVC SPS written by the harness: %s", d)
+				r.Probe("hevc-sps-generated")
+			}
+		}
 		if i == n-1 && t.Chance(60) {
 			// the history stops right after AddEmptyTrack: the last track has no codec descriptor (empty stsd) yet
 			tr.desc = "none"
@@ -189,7 +198,7 @@ func c19Build(r *sim.Run) (*mp4.InitSegment, []c19Track, error) {
 		case "avc1", "avc3":
 			err = trak.SetAVCDescriptor(tr.desc, [][]byte{tr.sps}, [][]byte{c19AvcPPS}, tr.includePS)
 		case "hvc1", "hev1":
-			err = trak.SetHEVCDescriptor(tr.desc, [][]byte{c19HevcVPS}, [][]byte{c19HevcSPS}, [][]byte{c19HevcPPS}, nil, tr.includePS)
+			err = trak.SetHEVCDescriptor(tr.desc, [][]byte{c19HevcVPS}, [][]byte{tr.sps}, [][]byte{c19HevcPPS}, nil, tr.includePS)
 		case "aac":
 			err = trak.SetAACDescriptor(tr.aacObj, tr.aacFreq)
 		case "ac3":
@@ -337,9 +346,6 @@ func c19CheckBytes(r *sim.Run, data []byte, model []c19Track) {
 		case "avc1", "avc3", "hvc1", "hev1":
 			w, h := u16at(data, se.Payload()+24), u16at(data, se.Payload()+26)
 			ww, wh := tr.w, tr.h
-			if tr.desc[0] == 'h' {
-				ww, wh = 960, 540
-			}
 			if w != ww || h != wh {
 				r.Violate("c19-dimensions", "%s: sample entry %dx%d, parameter set codes %dx%d", who, w, h, ww, wh)
 			}
@@ -353,7 +359,7 @@ func c19CheckBytes(r *sim.Run, data []byte, model []c19Track) {
 			sets := [][]byte{tr.sps, c19AvcPPS}
 			if tr.desc[0] == 'h' {
 				cfgType = "hvcC"
-				sets = [][]byte{c19HevcVPS, c19HevcSPS, c19HevcPPS}
+				sets = [][]byte{c19HevcVPS, tr.sps, c19HevcPPS}
 			}
 			cfg := se.Find(cfgType)
 			if cfg == nil {
